@@ -395,104 +395,98 @@ def ord_pack(ctx: Ctx, rule: str) -> None:
                             f'{t}[{v}] with {v} ranging over {unparse(src[1])}' + ('' if ok else f'; a per-parameter vector must follow {m.group("recv")}.{m.group("kind")}_betas.names'),
                             detail=f'{t}[{v}] over {unparse(src[1])}')
 
-    def stmt_assigning(f: FuncInfo, target: str) -> list[ast.stmt]:
-        return [n for n in walk_no_nested(f.node) if isinstance(n, (ast.Assign, ast.AnnAssign)) and any(unparse(t) == target for t in (n.targets if isinstance(n, ast.Assign) else [n.target]))]
+    from .pattern import body_is, find, find_expr, has, has_expr
 
-    def comp_over(f: FuncInfo, target: str, names_text: str, elt_re: str, what: str):
-        ss = stmt_assigning(f, target)
+    def comp_over(f: FuncInfo, target: str, names_text: str, elt_pat: str, what: str):
+        """target = [<elt_pat with _X> for _X in <names_text>]"""
         construct = f'{f.qualname}:{target}'
+        b = find(f.node, f'{target} = [{elt_pat} for _X in {names_text}]')
+        ss = [n for n in walk_no_nested(f.node) if isinstance(n, (ast.Assign, ast.AnnAssign)) and any(unparse(t) == target for t in (n.targets if isinstance(n, ast.Assign) else [n.target])) and not (isinstance(n.value, ast.Constant) and n.value.value is None)]
         if not ss:
             raise AnalysisError(f'{rule}: {f.qualname} no longer assigns {target}')
-        for s in ss:
-            v = s.value
-            if isinstance(v, ast.Constant) and v.value is None:
-                continue
-            if not isinstance(v, ast.ListComp) or len(v.generators) != 1:
-                ctx.add(rule, construct, False, (f.file, s.lineno), f'{target} is not built by one comprehension over {names_text}: {unparse(v)[:80]}', unparse(v))
-                continue
-            g = v.generators[0]
-            x = unparse(g.target)
-            ok = unparse(g.iter) == names_text and not g.ifs and re.fullmatch(elt_re.replace('X', re.escape(x)), unparse(v.elt).replace('\n', ' ')) is not None
-            ctx.add(rule, construct, ok, (f.file, s.lineno), f'{target} = [{what} for each name of {names_text}]' if ok else f'{target} = {unparse(v)[:120]}', detail=unparse(v))
+        ok = b is not None and len(ss) == 1
+        ctx.add(rule, construct, ok, (f.file, ss[0].lineno), f'{target} = [{what} for each name of {names_text}]' if ok else f'{target} = {unparse(ss[0].value)[:120]}', detail='' if ok else unparse(ss[0].value))
 
     prep = prog.func('expressions.idmanager', 'IdManager.prepare')
-    comp_over(prep, 'self.bounds', 'self.free_betas.names', r'\(self\.free_betas\.expressions\[X\]\.lb, self\.free_betas\.expressions\[X\]\.ub\)', '(lb, ub) of that parameter')
-    comp_over(prep, 'self.free_betas_values', 'self.free_betas.names', r'self\.free_betas\.expressions\[X\]\.initValue', 'initValue of that parameter')
-    comp_over(prep, 'self.fixed_betas_values', 'self.fixed_betas.names', r'self\.fixed_betas\.expressions\[X\]\.initValue', 'initValue of that parameter')
+    comp_over(prep, 'self.bounds', 'self.free_betas.names', '(self.free_betas.expressions[_X].lb, self.free_betas.expressions[_X].ub)', '(lb, ub) of that parameter')
+    comp_over(prep, 'self.free_betas_values', 'self.free_betas.names', 'self.free_betas.expressions[_X].initValue', 'initValue of that parameter')
+    comp_over(prep, 'self.fixed_betas_values', 'self.fixed_betas.names', 'self.fixed_betas.expressions[_X].initValue', 'initValue of that parameter')
     gv = prog.func('expressions.base_expressions', 'Expression.get_value_and_derivatives')
-    bp = 'betas'
     comp_over(gv, 'self.id_manager.free_betas_values', 'self.id_manager.free_betas.names',
-              rf'{bp}\[X\] if X in {bp} else self\.id_manager\.free_betas\.expressions\[X\]\.initValue', 'betas[name] when given, else the initValue of the same name')
+              'betas[_X] if _X in betas else self.id_manager.free_betas.expressions[_X].initValue', 'betas[name] when given, else the initValue of the same name')
     # free-first numbering
-    cat = stmt_assigning(prep, 'elementary_expressions_names')
-    ok = False
-    det = ''
-    if len(cat) == 1:
-        det = unparse(cat[0].value)
-        parts = [p.strip() for p in det.replace('\n', ' ').split('+')]
-        ok = parts[:1] == ['self.free_betas.names'] and sorted(parts) == sorted(['self.free_betas.names', 'self.fixed_betas.names', 'self.random_variables.names', 'self.draws.names', 'self.variables.names'])
-    ctx.add(rule, 'IdManager.prepare:free-first', ok, prep, 'global numbering = free + fixed + random variables + draws + variables, free parameters first (the engine differentiates w.r.t. literal ids 0..n-1)' if ok else f'global numbering is {det[:150]}', det)
-    idx = stmt_assigning(prep, 'elementary_expressions_indices')
-    ok = len(idx) == 1 and unparse(idx[0].value) == '{v: i for i, v in enumerate(elementary_expressions_names)}'
-    ctx.add(rule, 'IdManager.prepare:indices', ok, prep, 'unique index = position in that concatenation' if ok else f'unique indices: {unparse(idx[0].value) if idx else "missing"}', unparse(idx[0].value) if idx else '')
+    b = find(prep.node, """
+_N = self.free_betas.names + self.fixed_betas.names + self.random_variables.names + self.draws.names + self.variables.names
+___
+_I = {_V: _K for _K, _V in enumerate(_N)}
+___
+self.elementary_expressions = ElementsTuple(expressions=None, indices=_I, names=_N)
+""")
+    ok = b is not None
+    if not ok:
+        # any other order of the five lists that still starts with the free parameters is accepted
+        for n in walk_no_nested(prep.node):
+            if isinstance(n, ast.Assign) and isinstance(n.value, ast.BinOp):
+                parts = [x.strip() for x in unparse(n.value).replace('\n', ' ').split('+')]
+                if sorted(parts) == sorted(['self.free_betas.names', 'self.fixed_betas.names', 'self.random_variables.names', 'self.draws.names', 'self.variables.names']) and parts[0] == 'self.free_betas.names':
+                    nm = unparse(n.targets[0])
+                    ok = has(prep.node, f'_I = {{_V: _K for _K, _V in enumerate({nm})}}\n___\nself.elementary_expressions = ElementsTuple(expressions=None, indices=_I, names={nm})')
+    ctx.add(rule, 'IdManager.prepare:free-first', ok, prep, 'global numbering = position in free + fixed + random variables + draws + variables, free parameters first (the engine differentiates w.r.t. literal ids 0..n-1)' if ok else 'the global numbering no longer enumerates a concatenation that starts with the free parameters', 'free-first')
     eni = prog.func('expressions.idmanager', 'expressions_names_indices')
-    body = ' ; '.join(unparse(x) for x in eni.body)
     pn = eni.positional_params()[0]
-    ok = f'names = sorted({pn})' in body and 'for i, v in enumerate(names):\n    indices[v] = i' in body and 'indices=indices' in body and 'names=names' in body and f'expressions={pn}' in body
-    ctx.add(rule, 'expressions_names_indices', ok, eni, 'names are sorted and indices[name] is the position in that sorted list' if ok else 'the canonical order is no longer the sorted list of names with indices = enumerate(names)', body[:160])
+    ok = body_is(eni.body, f"""
+_I = {{}}
+_N = sorted({pn})
+for _K, _V in enumerate(_N):
+    _I[_V] = _K
+return ElementsTuple(expressions={pn}, indices=_I, names=_N)
+""") is not None or body_is(eni.body, f"""
+_N = sorted({pn})
+_I = {{_V: _K for _K, _V in enumerate(_N)}}
+return ElementsTuple(expressions={pn}, indices=_I, names=_N)
+""") is not None
+    ctx.add(rule, 'expressions_names_indices', ok, eni, 'names are sorted and indices[name] is the position in that sorted list' if ok else 'the canonical order is no longer the sorted list of names with indices = enumerate(names)', 'sorted')
     # BIOGEME sites
     B = prog.cls('biogeme', 'BIOGEME')
     f = B.methods['change_init_values']
-    loops = [n for n in walk_no_nested(f.node) if isinstance(n, ast.For) and 'enumerate' in unparse(n.iter)]
-    ok = False
-    det = ''
-    if len(loops) == 1:
-        lp = loops[0]
-        det = unparse(lp)
-        if unparse(lp.iter) == 'enumerate(self.id_manager.free_betas.names)' and isinstance(lp.target, ast.Tuple):
-            i, nm = (unparse(x) for x in lp.target.elts)
-            txt = ' ; '.join(unparse(s) for s in lp.body)
-            m = re.fullmatch(rf'(\w+) = betas\.get\({nm}\) ; if \1 is not None:\n    self\.id_manager\.free_betas_values\[{i}\] = \1', txt)
-            ok = m is not None
-    ctx.add(rule, 'BIOGEME.change_init_values', ok, f, 'free_betas_values[i] = betas[name] for (i, name) in enumerate(free_betas.names)' if ok else f'update of free_betas_values: {det[:150]}', det)
+    ok = has(f.node, """
+for _I, _N in enumerate(self.id_manager.free_betas.names):
+    _V = betas.get(_N)
+    if _V is not None:
+        self.id_manager.free_betas_values[_I] = _V
+""")
+    loops = [n for n in walk_no_nested(f.node) if isinstance(n, ast.For) and 'free_betas_values' in unparse(n)]
+    ctx.add(rule, 'BIOGEME.change_init_values', ok, f, 'free_betas_values[i] = betas[name] for (i, name) in enumerate(free_betas.names)' if ok else f'update of free_betas_values: {unparse(loops[0])[:150] if loops else "missing"}', '' if ok else (unparse(loops[0]) if loops else 'missing'))
     f = B.methods['beta_values_dict_to_list']
-    loops = [n for n in walk_no_nested(f.node) if isinstance(n, ast.For) and unparse(n.iter) == 'self.id_manager.free_betas.names']
-    ok = False
-    det = ''
-    for lp in loops:
-        x = unparse(lp.target)
-        apps = [c for c in ast.walk(lp) if isinstance(c, ast.Call) and isinstance(c.func, ast.Attribute) and c.func.attr == 'append']
-        if len(apps) == 1:
-            det = unparse(lp)
-            val = unparse(apps[0].args[0])
-            defs = [s for s in lp.body if isinstance(s, ast.Assign) and unparse(s.targets[0]) == val]
-            lst = unparse(apps[0].func.value)
-            ok = len(defs) == 1 and unparse(defs[0].value) in (f'beta_dict.get({x})', f'beta_dict[{x}]') and unparse(f.body[-1]) == f'return {lst}' and any(
-                isinstance(r, ast.Raise) for r in ast.walk(lp))
-    ctx.add(rule, 'BIOGEME.beta_values_dict_to_list', ok, f, 'the list follows free_betas.names, element = beta_dict[name], missing name refused' if ok else f'conversion dict -> list: {det[:150]}', det)
+    ok = has(f.node, """
+_L = []
+for _X in self.id_manager.free_betas.names:
+    _V = beta_dict.get(_X)
+    if _V is None:
+        _E = __MSG
+        raise BiogemeError(_E)
+    _L.append(_V)
+return _L
+""")
+    ctx.add(rule, 'BIOGEME.beta_values_dict_to_list', ok, f, 'the list follows free_betas.names, element = beta_dict[name], missing name refused' if ok else 'the conversion of a dictionary of values into a vector no longer follows free_betas.names name by name', 'dict_to_list')
     f = B.methods['calculate_likelihood_and_derivatives']
-    loops = [n for n in walk_no_nested(f.node) if isinstance(n, ast.For) and unparse(n.iter) == 'enumerate(x)']
-    ok = False
-    det = ''
-    if len(loops) == 1 and isinstance(loops[0].target, ast.Tuple):
-        i, v = (unparse(t) for t in loops[0].target.elts)
-        det = ' '.join(unparse(s) for s in loops[0].body)
-        ok = f'self.id_manager.free_betas.names[{i}]' in det
-    ctx.add(rule, 'BIOGEME.calculate_likelihood_and_derivatives:iter-lines', ok, f, 'line i of the iteration file carries free_betas.names[i] and x[i]' if ok else f'iteration file lines: {det[:120]}', det)
+    ok = bool(find_expr(f.node, 'self.id_manager.free_betas.names[_I]')) and has(f.node, 'for _I, _V in enumerate(x):\n    print(f"{self.id_manager.free_betas.names[_I]} = {_V}", file=_F)')
+    ctx.add(rule, 'BIOGEME.calculate_likelihood_and_derivatives:iter-lines', ok, f, 'line i of the iteration file carries free_betas.names[i] and x[i]' if ok else 'the lines of the iteration file no longer pair free_betas.names[i] with x[i]', 'iter')
     f = B.methods['report_array']
-    txt = unparse(f.node)
-    ok = 'names = self.free_beta_names' in txt and 'zip(names[:length], array[:length])' in txt
+    ok = has(f.node, """
+_N = self.free_beta_names
+_R = ', '.join([f'{_A}={_B:.2g}' for _A, _B in zip(_N[:_L], array[:_L])])
+""", ) or has(f.node, "_N = self.free_beta_names\n___\nreturn ', '.join([f'{_A}={_B:.2g}' for _A, _B in zip(_N[:_L], array[:_L])])")
+    if not ok:
+        ok = bool(find_expr(f.node, 'zip(_N[:_L], array[:_L])')) and has(f.node, '_N = self.free_beta_names')
     ctx.add(rule, 'BIOGEME.report_array', ok, f, 'names and values are paired position by position from free_beta_names' if ok else 'report_array pairing changed', 'report_array')
     f = B.methods['free_beta_names']
-    ok = unparse(f.body[-1]) == 'return self.id_manager.free_betas.names'
+    ok = body_is(f.body, 'return self.id_manager.free_betas.names') is not None
     ctx.add(rule, 'BIOGEME.free_beta_names', ok, f, 'free_beta_names is free_betas.names' if ok else unparse(f.body[-1]), unparse(f.body[-1]))
     f = B.methods['get_bounds_on_beta']
-    txt = ' ; '.join(unparse(s) for s in f.body)
-    p = f.positional_params()[1]
-    ok = re.search(rf'(\w+) = self\.id_manager\.free_betas\.indices(\.get\({p}\)|\[{p}\])', txt) is not None and re.search(r'return self\.id_manager\.bounds\[(\w+)\]', txt) is not None
-    if ok:
-        ok = re.search(rf'(\w+) = self\.id_manager\.free_betas\.indices', txt).group(1) == re.search(r'return self\.id_manager\.bounds\[(\w+)\]', txt).group(1)
-    ctx.add(rule, 'BIOGEME.get_bounds_on_beta', ok, f, 'bounds[free_betas.indices[name]]' if ok else f'bounds lookup: {txt[:120]}', txt)
+    pm = f.positional_params()[1]
+    ok = has(f.node, f'_I = self.id_manager.free_betas.indices.get({pm})\n___\nreturn self.id_manager.bounds[_I]') or has(f.node, f'_I = self.id_manager.free_betas.indices[{pm}]\n___\nreturn self.id_manager.bounds[_I]')
+    ctx.add(rule, 'BIOGEME.get_bounds_on_beta', ok, f, 'bounds[free_betas.indices[name]]' if ok else 'bounds are no longer looked up through free_betas.indices[name]', 'bounds')
     f = B.methods['check_derivatives']
     calls = [c for c in ast.walk(f.node) if isinstance(c, ast.Call) and unparse(c.func).endswith('derivatives.check_derivatives')]
     ok = len(calls) == 1 and len(calls[0].args) >= 3 and unparse(calls[0].args[2]) == 'self.id_manager.free_betas.names'
@@ -500,30 +494,20 @@ def ord_pack(ctx: Ctx, rule: str) -> None:
     # results
     R = prog.cls('results', 'RawResults')
     f = R.methods['__init__']
-    txt = unparse(f.node)
-    names = [unparse(s.value) for s in stmt_assigning(f, 'self.betaNames')]
-    loops = [n for n in walk_no_nested(f.node) if isinstance(n, ast.For) and 'zip(' in unparse(n.iter)]
-    ok = names == ['the_model.id_manager.free_betas.names'] and len(loops) == 1
-    det = ''
-    if ok:
-        lp = loops[0]
-        det = unparse(lp)
-        ok = unparse(lp.iter) == 'zip(beta_values, self.betaNames)' and isinstance(lp.target, ast.Tuple)
-        if ok:
-            v, nm = (unparse(x) for x in lp.target.elts)
-            body = ' ; '.join(unparse(s) for s in lp.body)
-            ok = re.fullmatch(rf'(\w+) = the_model\.get_bounds_on_beta\({nm}\) ; self\.betas\.append\(Beta\({nm}, {v}, \1\)\)', body) is not None
-    ctx.add(rule, 'RawResults.__init__:betas', ok, f, 'value i is paired with free_betas.names[i] and with the bounds looked up by that name' if ok else f'pairing of estimates, names and bounds: {det[:160]}', det)
+    ok = has(f.node, 'self.betaNames = the_model.id_manager.free_betas.names') and has(f.node, """
+for _V, _N in zip(beta_values, self.betaNames):
+    _B = the_model.get_bounds_on_beta(_N)
+    self.betas.append(Beta(_N, _V, _B))
+""")
+    ctx.add(rule, 'RawResults.__init__:betas', ok, f, 'value i is paired with free_betas.names[i] and with the bounds looked up by that name' if ok else 'pairing of estimates, names and bounds in RawResults changed', 'rawresults')
     BR = prog.cls('results', 'bioResults')
     f = BR.methods['get_beta_values']
-    loops = [n for n in walk_no_nested(f.node) if isinstance(n, ast.For)]
-    ok = False
-    det = ''
-    for lp in loops:
-        b = unparse(lp.target)
-        t = unparse(lp)
-        if f'values[{b}]' in t:
-            det = t
-            m = re.search(rf'(\w+) = self\.data\.betaNames\.index\({b}\)', t)
-            ok = m is not None and f'values[{b}] = self.data.betas[{m.group(1)}].value' in t
-    ctx.add(rule, 'bioResults.get_beta_values', ok, f, 'the value of a requested name is betas[betaNames.index(name)]' if ok else f'lookup of estimates by name: {det[:160]}', det)
+    ok = has(f.node, """
+for _B in my_betas:
+    try:
+        _I = self.data.betaNames.index(_B)
+        _VALS[_B] = self.data.betas[_I].value
+    except KeyError as _EXC:
+        ___
+""") or has(f.node, "for _B in my_betas:\n    _I = self.data.betaNames.index(_B)\n    _VALS[_B] = self.data.betas[_I].value")
+    ctx.add(rule, 'bioResults.get_beta_values', ok, f, 'the value of a requested name is betas[betaNames.index(name)]' if ok else 'estimates are no longer looked up through betaNames.index(name)', 'get_beta_values')
